@@ -2,6 +2,7 @@ SPECIFICATION Spec
 CONSTANT Bug = "none"
 CONSTANT MaxDefects = 2
 CONSTANT MaxValidations = 1
+CONSTANT AllowForever = TRUE
 CONSTANT MaxPending = 1
 INVARIANT TypeOK
 INVARIANT Precedence
@@ -12,6 +13,7 @@ INVARIANT CallsExact
 INVARIANT OkNeedsAnswer
 INVARIANT OkSound
 INVARIANT Complete
+INVARIANT PendingNeverAccepts
 INVARIANT HistoryFree
 INVARIANT TotalCalls
 INVARIANT RulesBigStep
